@@ -27,6 +27,7 @@ const (
 	opSplit
 	opSet
 	opFreeze
+	opDerive
 )
 
 type protoOp struct {
@@ -35,6 +36,11 @@ type protoOp struct {
 	limit regex.Val // split limit (undefined or number)
 	set   regex.Val // value assigned to lastIndex
 	setJS string    // JS source of that value
+	// derive: how a second RegExp object d is obtained from re before both are
+	// exercised: "new" = new RegExp(re), "call" = RegExp(re) (returns re itself,
+	// 15.10.3.1), "src" = new RegExp(re.source, flags of re), "newflags" /
+	// "callflags" = new RegExp(re, "g") / RegExp(re, "g") (TypeError, 15.10.4.1).
+	derive string
 }
 
 const replaceTemplate = "[$&|$1|$`|$'|$$|$0|$01|$10]"
@@ -60,6 +66,8 @@ func (o protoOp) name() string {
 		return "lastIndex=" + o.setJS
 	case opFreeze:
 		return "freeze"
+	case opDerive:
+		return "derive-" + o.derive + "(" + s + ")"
 	}
 	return "?"
 }
@@ -89,6 +97,8 @@ func (o protoOp) js() string {
 		return "__p_set(re," + o.setJS + ")"
 	case opFreeze:
 		return "__p_freeze(re)"
+	case opDerive:
+		return "__p_derive(re," + jsStringLiteral(o.derive) + "," + s + ")"
 	}
 	return ""
 }
@@ -122,6 +132,24 @@ function __p_replF(re, s) {
 function __p_search(re, s) { return __p(re, function () { return __S(s.search(re)); }); }
 function __p_split(re, s, lim) { return __p(re, function () { return __L(s.split(re, lim)); }); }
 function __p_set(re, v) { return __p(re, function () { re.lastIndex = v; return "set"; }); }
+function __p_derive(re, kind, s) {
+  return __p(re, function () {
+    var d;
+    var fl = (re.global ? "g" : "") + (re.ignoreCase ? "i" : "") + (re.multiline ? "m" : "");
+    if (kind === "new") d = new RegExp(re);
+    else if (kind === "call") d = RegExp(re);
+    else if (kind === "src") d = new RegExp(re.source, fl);
+    else if (kind === "newflags") d = new RegExp(re, "g");
+    else d = RegExp(re, "g");
+    var o = "same=" + (d === re) + ",src=" + __S(d.source) + ",f=" + d.global + d.ignoreCase + d.multiline + ",st=" + __st(d);
+    var x, y;
+    try { x = __A(d.exec(s)); } catch (e) { x = __E(e); }
+    o += ";d.exec=" + x + "@" + __S(d.lastIndex);
+    try { y = __A(re.exec(s)); } catch (e) { y = __E(e); }
+    o += ";re.exec=" + y + "@" + __S(re.lastIndex) + ";d.li=" + __S(d.lastIndex);
+    return o;
+  });
+}
 function __p_freeze(re) { return __p(re, function () { Object.defineProperty(re, "lastIndex", {writable: false}); return "frozen"; }); }
 `
 
@@ -250,8 +278,56 @@ func applyOp(re *regex.RegExp, op protoOp, dev *Dev) ([]string, error) {
 	case opFreeze:
 		re.Writable = false
 		return []string{"frozen"}, nil
+	case opDerive:
+		return one(deriveProbe(re, op, func(r *regex.RegExp, s []uint16) (string, error) { return r.Exec(s) }))
 	}
 	return nil, fmt.Errorf("unknown op")
+}
+
+// deriveProbe is the model of __p_derive: 15.10.3.1 / 15.10.4.1 for a RegExp
+// object as the pattern argument, then exec on the derived object and on the
+// original. exec is the exec implementation (the oracle's, or an alternative
+// model's for known-finding signatures).
+func deriveProbe(re *regex.RegExp, op protoOp, exec func(*regex.RegExp, []uint16) (string, error)) (string, error) {
+	var d *regex.RegExp
+	switch op.derive {
+	case "call":
+		d = re // 15.10.3.1: pattern is a RegExp and flags is undefined: return it unchanged
+	case "new", "src":
+		// 15.10.4.1: same pattern and flags; lastIndex is 0 (15.10.7.5), a fresh writable property
+		d = &regex.RegExp{Prog: re.Prog, Global: re.Global, LastIndex: regex.Num(0), Writable: true}
+	default:
+		// 15.10.4.1: pattern is a RegExp and flags is not undefined: TypeError
+		return "", &regex.Thrown{Class: "TypeError"}
+	}
+	b := func(v bool) string {
+		if v {
+			return "true"
+		}
+		return "false"
+	}
+	o := "same=" + b(d == re) + ",src=" + regex.RenderUnits(re.Prog.Pat.Source) + ",f=" + b(d.Global) + b(d.Prog.IgnoreCase) + b(d.Prog.Multiline) +
+		",st=" + protoState{d.LastIndex.Render(), d.Writable}.String()
+	run := func(r *regex.RegExp) (string, error) {
+		x, err := exec(r, op.subj)
+		if err != nil {
+			t, ok := thrown(err)
+			if !ok {
+				return "", err
+			}
+			x = t
+		}
+		return x + "@" + r.LastIndex.Render(), nil
+	}
+	x, err := run(d)
+	if err != nil {
+		return "", err
+	}
+	y, err := run(re)
+	if err != nil {
+		return "", err
+	}
+	return o + ";d.exec=" + x + ";re.exec=" + y + ";d.li=" + d.LastIndex.Render(), nil
 }
 
 // ---- exploration --------------------------------------------------------------
@@ -297,6 +373,13 @@ func protoOps(thorough bool) []protoOp {
 		ops = append(ops, protoOp{kind: opSet, set: s.v, setJS: s.js})
 	}
 	ops = append(ops, protoOp{kind: opFreeze})
+	// appended last so that the indices of the operations above stay stable
+	for _, s := range protoSubjects(thorough) {
+		for _, k := range []string{"new", "call", "src"} {
+			ops = append(ops, protoOp{kind: opDerive, subj: s, derive: k})
+		}
+	}
+	ops = append(ops, protoOp{kind: opDerive, derive: "newflags"}, protoOp{kind: opDerive, derive: "callflags"})
 	return ops
 }
 
